@@ -4,7 +4,9 @@ on the real code and comparing."""
 import concurrent.futures as cf
 import itertools
 import json
+import os
 import random
+import re
 
 import netgen
 import vlib
@@ -12,7 +14,7 @@ import vlib
 _catalogue = None
 
 
-def catalogue():
+def catalogue(all_=False):
     global _catalogue
     if _catalogue is None:
         p = vlib.harness_cmd(["catalogue"], timeout=60)
@@ -23,6 +25,9 @@ def catalogue():
             for k in ("params", "default", "inputs"):
                 if e.get(k) is None:
                     e[k] = []
+    only = os.environ.get("VERIF_ONLY")   # development aid: restrict to pipelines matching a regex
+    if only and not all_:
+        return [e for e in _catalogue if re.search(only, e["name"])]
     return _catalogue
 
 
